@@ -177,6 +177,7 @@ def run(ctx, proofs):
     impl = propeng.lift_all(H, progs, [("0", "0")])
     lines, keys = [], []
     elines = []
+    hlines = []
     mlines, mkeys = [], []
     status = {}
     failing, shapes = [], set()
@@ -198,6 +199,7 @@ def run(ctx, proofs):
         lines.append("ssacheck %s %s" % (sexp.show(x[2]), sexp.show(x[3])))
         keys.append(i)
         elines.append("erasecheck %s %s" % (sexp.show(x[1]), sexp.show(x[2])))
+        hlines.append("ssapre %s %s" % (sexp.show(x[1]), sexp.show(x[4])))
         probs = static_checks(x[2])
         wp, cnt = walk_paths(x[2])
         paths += cnt
@@ -216,6 +218,9 @@ def run(ctx, proofs):
         if o != "(erasure)":
             failing.append({"input": progs[i][1], "impl": "SsaErase.erase_check answers %s on the graphs before / after SSA conversion" % o,
                             "spec": "the SSA graph is the original graph with versions added and phi statements prepended"})
+    # the hypotheses of the construction theorems (C14_construction_*), on the real graph before conversion and the real children table
+    houts = common.run_lines(M, [], hlines, shards=common.NPROC, timeout=1200) if hlines else []
+    hyp_bad = [{"input": progs[i][1], "answer": o} for i, o in zip(keys, houts) if o != "(pre-ssa-ok)"]
     # the construction mirror Model.Ssa.into_ssa vs the implementation, modulo hash-order effects
     mouts = common.run_lines(M, [], mlines, shards=common.NPROC, timeout=1200) if mlines else []
     disagreements = []
@@ -239,6 +244,9 @@ def run(ctx, proofs):
             ctx.violation("correspondence Model.Ssa.into_ssa vs Cfg::into_ssa broken (%d definitions); the SSA graphs themselves passed the "
                           "validator and the path walk" % len(disagreements),
                           {"broken": "correspondence ssa (Model.Ssa.into_ssa)", "first": disagreements[0]}, no_input=True)
+        elif hyp_bad:
+            ctx.violation("a graph handed to SSA conversion does not meet the hypotheses of the construction theorems (%s; %d definitions)" % (hyp_bad[0]["answer"], len(hyp_bad)),
+                          {"broken": "hypotheses pre_ssa_ok / children_cover of C14_construction_*", "first": hyp_bad[0]}, no_input=True)
         elif proofs["failures"]:
             ctx.violation("proof obligations of C14 no longer check: " + "; ".join(proofs["failures"])[:400],
                           {"broken": "props/C14.v", "failures": proofs["failures"]}, no_input=True)
@@ -257,12 +265,15 @@ def run(ctx, proofs):
         "implementation_status": status,
         "graphs_validated": len(outs),
         "graphs_rejected_by_validator": len(invalid),
+        "graphs_meeting_the_hypotheses_of_the_construction_theorems": sum(1 for o in houts if o == "(pre-ssa-ok)"),
         "graphs_accepted_by_erase_check": sum(1 for o in eouts if o == "(erasure)"),
         "construction_mirror_compared": len(mouts),
         "construction_mirror_disagreements": len(disagreements),
         "paths_walked_by_oracle": paths,
-        "open_statements": ["ssa_construction_valid_full: `for every CFG, into_ssa yields a graph accepted by ssa_check` (Cytron et al.'s theorem for this "
-                            "renaming scheme) is established per explored definition by running the verified validator, not for all graphs"],
+        "open_statements": ["ssa_construction_valid_full: for every CFG the construction mirror yields a graph that is an erasure of the input, has its phis at "
+                            "block heads, unique definitions and unmixed keys (PROVED for all graphs: C14_construction_*); that it is also accepted by the "
+                            "dominance part of ssa_check (`infos_ok`: every read names the running version on every path - Cytron et al.'s theorem for "
+                            "this renaming scheme) is established per explored definition by running the verified validator, not for all graphs"],
     })
     ctx.assumptions += ["the S-expression dump (harness/src/irdump.rs) and its OCaml reader render the implementation's graph faithfully",
                         "construction validity is per explored definition; soundness of the validator is for all graphs and all paths"]
